@@ -84,6 +84,75 @@ def _cubic_glyf(font):
     return font["head"].glyphDataFormat != 0 or any(g[n].numberOfContours > 0 and any(f & 0x80 for f in g[n].flags) for n in font.getGlyphOrder())
 
 
+def _scaled(v, k):
+    if isinstance(v, (list, tuple)):
+        return tuple(_scaled(x, k) for x in v)
+    return v * k if isinstance(v, (int, float)) and not isinstance(v, bool) else v
+
+
+def _close(a, b, tol):
+    if isinstance(a, (list, tuple)):
+        return isinstance(b, (list, tuple)) and len(a) == len(b) and all(_close(x, y, tol) for x, y in zip(a, b))
+    if isinstance(a, (int, float)) and isinstance(b, (int, float)):
+        return abs(a - b) <= tol
+    return a == b
+
+
+def _by_name_tables(font, order=None):
+    """{tag: {key made of glyph NAMES: plain value}} for tables indexed by glyph that the shaping oracle cannot see:
+    hdmx, LTSH, vmtx, VORG, kern, COLR v0, sbix, EBLC/EBDT bitmaps, post names (identity), cmap of every subtable."""
+    out = {}
+    if "hdmx" in font:
+        out["hdmx"] = {(ppem, n): w for ppem, d in font["hdmx"].hdmx.items() for n, w in d.items()}
+    if "LTSH" in font:
+        out["LTSH"] = dict(font["LTSH"].yPels)
+    if "vmtx" in font:
+        out["vmtx"] = {n: tuple(v) for n, v in font["vmtx"].metrics.items()}
+    if "VORG" in font:
+        out["VORG"] = dict(font["VORG"].VOriginRecords)
+        out["VORG"][".default"] = font["VORG"].defaultVertOriginY
+    if "kern" in font:
+        d = {}
+        for i, t in enumerate(font["kern"].kernTables):
+            if hasattr(t, "kernTable"):
+                for (l, r), v in t.kernTable.items():
+                    d[(i, l, r)] = v
+        out["kern"] = d
+    if "COLR" in font and getattr(font["COLR"], "version", 0) == 0:
+        out["COLR"] = {n: tuple((l.name, l.colorID) for l in (layers or ())) for n, layers in font["COLR"].ColorLayers.items()}
+    if "sbix" in font:
+        d = {}
+        for ppem, strike in font["sbix"].strikes.items():
+            for n, g in strike.glyphs.items():
+                if g.graphicType is not None:
+                    d[(ppem, n)] = (g.originOffsetX, g.originOffsetY, g.graphicType, bytes(g.imageData or b""))
+        out["sbix"] = d
+    if "EBDT" in font and "EBLC" in font:
+        d = {}
+        for si, (strike, gd) in enumerate(zip(font["EBLC"].strikes, font["EBDT"].strikeData)):
+            fmt = {}
+            for ist in strike.indexSubTables:
+                for n in ist.names:
+                    fmt[n] = (ist.indexFormat, ist.imageFormat, tuple(sorted(vars(ist.metrics).items())) if hasattr(ist, "metrics") and ist.indexFormat in (2, 5) else None)
+            for n, g in gd.items():
+                met = tuple(sorted(vars(g.metrics).items())) if hasattr(g, "metrics") else None
+                comps = tuple((c.name, c.xOffset, c.yOffset) for c in getattr(g, "componentArray", ()))
+                d[(si, n)] = (type(g).__name__, met, bytes(getattr(g, "imageData", b"") or b""), comps, fmt.get(n))
+        out["EBDT"] = d
+    if "cmap" in font:
+        d = {}
+        for t in font["cmap"].tables:
+            key = (t.platformID, t.platEncID, t.language, t.format)
+            for cp, n in t.cmap.items():
+                d[key + (cp,)] = n
+            if t.format == 14:
+                for sel, lst in t.uvsDict.items():
+                    for cp, n in lst:
+                        d[key + (sel, cp)] = n
+        out["cmap"] = d
+    return out
+
+
 def run_case(case, acc):
     from fontTools.ttLib import TTFont
     from vf.hbref import HBFont
@@ -176,6 +245,10 @@ def run_case(case, acc):
                 if loc is not None and "gvar" in ref:
                     tol += 0.5 * len(ref["gvar"].variations.get(name, []))
                     adv_tol += 0.5 * len(ref["gvar"].variations.get(name, []))
+                if loc is not None:
+                    # HarfBuzz reports the ORIGINAL's interpolated advance rounded to an integer as well: that rounding is
+                    # multiplied by k before it is compared
+                    adv_tol += 0.5 * k
                 tol += 1e-6
             elif mode == "scale" and is_cff:
                 # integer factor: exact when the charstring operands are integers; fractional operands are
@@ -207,6 +280,10 @@ def run_case(case, acc):
     # without GPOS HarfBuzz positions marks with its own fallback heuristics (glyph extents, upem-derived gaps), which
     # are not font data and do not scale linearly: compare offsets only when they come from GPOS
     check_offsets = "GPOS" in ref or mode == "reorder"
+    # HarfBuzz splits a legacy 'kern' value v between the two glyphs as (v >> 1, v - (v >> 1)): the halves of k*v are not
+    # k times the halves of v (v = -1, k = 2: (-1, 0) vs (-1, -1)), only their sum is; one unit per field covers the split
+    # (per kern subtable: HarfBuzz applies them one after the other)
+    legacy_kern_tol = (len(getattr(ref["kern"], "kernTables", [])) or 1) + 1e-6 if (mode == "scale" and "kern" in ref) else 0.0
     fsets = shapecmp.feature_sets(hb0, rnd)
     texts = shapecmp.random_texts(hb0.unicodes(), rnd, case.get("ntexts", 12))
     seqs = shapecmp.layout_probe_sequences(ref, rnd, case.get("nseqs", 25))
@@ -216,6 +293,7 @@ def run_case(case, acc):
             ra = shapecmp.shape_text(hb0, order0, t, features=feats)
             rb = shapecmp.shape_text(hb1, new_order, t, features=feats)
             tol = 0.0 if (mode == "reorder" or integer_k) else 0.5 * (3 + len(ra))
+            tol = max(tol, legacy_kern_tol)
             if not check_offsets:
                 ra = [x[:4] + (0, 0) for x in ra]
                 rb = [x[:4] + (0, 0) for x in rb]
@@ -228,6 +306,7 @@ def run_case(case, acc):
             ra = shapecmp.shape_names(hb0, order0, s, features=feats)
             rb = shapecmp.shape_names(hb1, new_order, s, features=feats)
             tol = 0.0 if (mode == "reorder" or integer_k) else 0.5 * (3 + len(ra))
+            tol = max(tol, legacy_kern_tol)
             if not check_offsets:
                 ra = [x[:4] + (0, 0) for x in ra]
                 rb = [x[:4] + (0, 0) for x in rb]
@@ -236,6 +315,48 @@ def run_case(case, acc):
             if d:
                 acc.fail(mode, "shaping-differs", "%s glyph run %r features %s k=%g: %s" % (fid, s, "all" if feats else "default", k, d), case)
                 break
+    # --- vertical layout: advance heights (vmtx) and vertical origins (VORG / vmtx+glyf) through HarfBuzz ---------
+    if "vmtx" in ref or "VORG" in ref:
+        names = [n for n in order0 if n in new_order]
+        if len(names) > 200:
+            names = rnd.sample(names, 200)
+        for n in names:
+            ra = hb0.shape_gids([order0.index(n)], direction="ttb")
+            rb = hb1.shape_gids([new_order.index(n)], direction="ttb")
+            if len(ra) != 1 or len(rb) != 1:
+                continue
+            # (glyph, cluster, x_advance, y_advance, x_offset, y_offset): y_advance = -advance height,
+            # y_offset = -vertical origin y, x_offset = -advance width / 2 (HarfBuzz halves after scaling: +0.5)
+            vtol = 0.0 if mode == "reorder" else 0.5 * k + 0.5 + 1e-6
+            if is_cff and mode == "scale":
+                vtol += 0.5 * 4  # a vertical origin derived from the glyph's top (no VORG record) follows the outline's budget
+            for idx, what in ((3, "advance height"), (5, "vertical origin y"), (4, "x offset (half advance width)")):
+                xtol = vtol + (0.5 if idx == 4 else 0.0)
+                if abs(ra[0][idx] * k - rb[0][idx]) > xtol:
+                    acc.fail(mode, "vertical-metrics-differ", "%s glyph %r k=%g: %s %r x k vs %r (tol %.2f)" % (fid, n, k, what, ra[0][idx], rb[0][idx], xtol), case)
+                    break
+            else:
+                continue
+            break
+        acc.label("vertical-metrics-compared")
+    # --- tables keyed by glyph that HarfBuzz does not read: per glyph NAME content through the object model --------
+    g0 = _by_name_tables(ref)
+    try:
+        g1 = _by_name_tables(TTFont(io.BytesIO(data1), lazy=False), new_order if mode == "reorder" else None)
+    except Exception as e:
+        acc.fail_exc("%s-output-unreadable" % mode, e, case)
+        g1 = None
+    if g1 is not None:
+        for tag in sorted(g0):
+            if mode == "scale" and tag in ("vmtx", "VORG", "kern"):
+                a = {key: _scaled(v, k) for key, v in g0[tag].items()}
+                bad = [key for key in a if key not in g1.get(tag, {}) or not _close(a[key], g1[tag][key], 0.5 + 1e-9)]
+                if bad or set(a) != set(g1.get(tag, {})):
+                    acc.fail(mode, "glyph-keyed-table-not-scaled:%s" % tag.strip(), "%s %s: %r: %r x %g vs %r" % (fid, tag, bad[:1], g0[tag].get(bad[0]) if bad else None, k, g1.get(tag, {}).get(bad[0]) if bad else None), case)
+            elif g0[tag] != g1.get(tag):
+                ks = [key for key in g0[tag] if g0[tag][key] != (g1.get(tag) or {}).get(key)] or sorted(set(g1.get(tag) or {}) - set(g0[tag]))
+                acc.fail(mode, "glyph-keyed-table-differs:%s" % tag.strip(), "%s %s entry %r: %r before, %r after" % (fid, tag, ks[:1], g0[tag].get(ks[0]) if ks else None, (g1.get(tag) or {}).get(ks[0]) if ks else None), case)
+            acc.label("glyph-keyed:%s" % tag.strip())
     # --- "changes nothing else" (scale): tables without design units ----------------------
     if mode == "scale":
         f1 = TTFont(io.BytesIO(data1), lazy=True)
@@ -288,8 +409,10 @@ def jobs(tier, seed):
         rnd = random.Random(subseed(seed, "pick"))
         # always include layout-rich / variable / CFF2 fonts, then fill by seed
         must = [e["id"] for e in corpus.fonts(_eligible) if e["variable"] or "CFF2" in e["tables"] or e["numGlyphs"] > 200][:18]
-        rest = [f for f in fids if f not in must]
-        fids = must + rnd.sample(rest, min(len(rest), 40))
+        # every generated font (tiny; table shapes the test data lacks: VORG, vmtx, hdmx, LTSH, kern, bitmaps, empty glyphs with gvar deltas)
+        gens = [f for f in fids if f.startswith("gen:")]
+        rest = [f for f in fids if f not in must and f not in gens]
+        fids = must + [g for g in gens if g not in must] + rnd.sample(rest, min(len(rest), 40))
     J = []
     for fid in fids:
         s = subseed(seed, fid)
